@@ -344,29 +344,48 @@ class ForceApplyN(Contract):
     bounded = "2..3 optional constraints; the count n symbolic"
 
     def cases(self, tier):
-        return [dict(kind=k, opts=o) for k in ("exact", "min", "max") for o in ((True, True), (True, True, True), (True, False))]
+        out = [dict(kind=k, opts=o) for k in ("exact", "min", "max") for o in ((True, True), (True, True, True), (True, False))]
+        # declared defaults: one constraint, exactly
+        return out + [dict(kind="exact", opts=(True, True), default_n=True), dict(kind="default", opts=(True, True, True))]
+
+    def count(self, P, case):
+        return z3.IntVal(1) if case.get("default_n") else T(P.int("n"))
 
     def scenario(self, ps, P, case):
         pb, t1, t2, w = build_world(ps, P)
         cs = [ps.TaskStartAt(task=t1 if i % 2 == 0 else t2, value=P.int(f"v{i}"), optional=o) for i, o in enumerate(case["opts"])]
-        f = ps.ForceApplyNOptionalConstraints(list_of_optional_constraints=cs, nb_constraints_to_apply=P.int("n"), kind=case["kind"])
+        kw = {}
+        if not case.get("default_n"):
+            kw["nb_constraints_to_apply"] = P.int("n")
+        if case["kind"] != "default":
+            kw["kind"] = case["kind"]
+        f = ps.ForceApplyNOptionalConstraints(list_of_optional_constraints=cs, **kw)
         solver = ps.SchedulingSolver(problem=pb)
         solver.initialize()
         return dict(pb=pb, cs=cs, f=f, solver=solver, t1=t1, t2=t2)
 
     def raises(self, P, case):
-        n = T(P.int("n"))
+        n = self.count(P, case)
         return [("ValidationError", n <= 0), ("TypeError", And(n > 0, z3.BoolVal(not all(case["opts"]))))]
 
     def clauses(self, P, ctx, case):
         A = asserted(ctx["solver"])
         cs = ctx["cs"]
         applied = [c._applied for c in cs]
-        M = [spec.cmp_kind(case["kind"], spec.count(applied), P.int("n"))]
+        kind = "exact" if case["kind"] == "default" else case["kind"]
+        M = [spec.cmp_kind(kind, spec.count(applied), self.count(P, case))]
         for i, c in enumerate(cs):
             t = ctx["t1"] if i % 2 == 0 else ctx["t2"]
             M.append(Implies(c._applied, t._start == T(P.int(f"v{i}"))))
-        return [Clause("sound[count of applied constraints; applied ones hold]", And(*M), hyps=A, props=("C10",), kind="sound", bounded=self.bounded)]
+        pb, t1, t2, w = ctx["pb"], ctx["t1"], ctx["t2"], ctx["pb"].workers["w"]
+        base = []
+        for t in (t1, t2):
+            base += list(t.get_z3_assertions()) + [t._end <= pb._horizon]
+        base += list(w.get_z3_assertions()) + list(pb.get_z3_assertions())
+        return [
+            Clause("sound[count of applied constraints; applied ones hold]", And(*M), hyps=A, props=("C10",), kind="sound", bounded=self.bounded),
+            Clause("complete[nothing but the count and the applied constraints is enforced]", And(*A), hyps=base + M, props=("C10",), kind="complete", bounded=self.bounded),
+        ]
 
     def sentinels(self, P, ctx, case):
         return [Clause("sentinel[all applied]", And(*[c._applied for c in ctx["cs"]]), hyps=asserted(ctx["solver"]), props=("C10",), kind="sound")]
